@@ -162,7 +162,7 @@ void ChainSim::StartNode()
     ref = std::make_unique<RefChain>(node->params->GenesisBlock());
     delivered.assign(1, 1);
     header_given.assign(1, 1);
-    now = ref->blocks[0].time + 1000;
+    now = ref->blocks[0].time + 1000 + start_shift;
     SetMockTime(std::chrono::seconds{now});
 }
 
@@ -225,6 +225,7 @@ int ChainSim::MineOn(int parent, int ntx, uint64_t txseed, int defect, int bound
     if (defect == D_TIME_TOO_OLD) time = mtp;
     else if (time_mode == 1 || boundary == B_TIME_MTP_PLUS1) time = mtp + 1;
     else time = std::max<int64_t>(mtp + 1, P.time + r.range(1, time_mode == 2 ? 3000 : 600));
+    if (next_block_time_now && defect == D_NONE && boundary == 0 && time_mode != 1) { time = std::max<int64_t>(time, now); next_block_time_now = false; }
     if (time > now) { now = time; SetMockTime(std::chrono::seconds{now}); }
 
     BlockLabel label;
